@@ -2,7 +2,7 @@
 //! normalisation, affine conversion) — generic over G1 and G2.
 
 use crate::api::{all_values, alpha, build, fr, lib, pt_json, ref_mul, rep_from_json, reps_id, reps_nonid, GroupApi, Rep, Val};
-use mccore::alpha::{dlogs, scalars, special};
+use mccore::alpha::{dlogs, fp_alpha, scalars, special};
 use mccore::{ensure, gn, gs, jn, unrank, Bad, Meta, Run, Spec, Tally, Tier};
 use num_traits::{One, Zero};
 use refmodel::{addm, ec_add, ec_mul, ec_neg, ec_sub, mulm, n, on_curve, r, subm, Fld, Fmt, Pt, N};
@@ -47,6 +47,28 @@ pub fn values_scaled_special<G: GroupApi>(seed: u64) -> Vec<Val<G>> {
     let ds = vec![n(1), r() - n(1), c.lambda.clone(), n(2), mccore::alpha::generic(r(), seed, 0x5c, 1).pop().unwrap()];
     let mut out = vec![];
     for s in special(refmodel::q()) {
+        for sf in G::scale_embeddings(&s) {
+            if sf.is_zero() {
+                continue;
+            }
+            for d in &ds {
+                if let Some(v) = build::<G>(d, &Rep::Scaled(sf.clone())) {
+                    out.push(v);
+                }
+            }
+        }
+    }
+    out
+}
+
+/// thorough tier: Scaled(s) for EVERY member s of the quick FP(q) alphabet (all limb patterns, canonical and
+/// Montgomery-stored, special, paired, generic), in every embedding into the coordinate field, on three
+/// discrete logs: the Jacobian coordinates that flow through the point code then take every limb shape
+pub fn values_scaled_fp<G: GroupApi>(seed: u64, alphabet: Tier) -> Vec<Val<G>> {
+    let c = refmodel::consts();
+    let ds = vec![n(1), c.lambda.clone(), mccore::alpha::generic(r(), seed, 0x5c, 1).pop().unwrap()];
+    let mut out = vec![];
+    for s in fp_alpha(refmodel::q(), alphabet, seed).all {
         for sf in G::scale_embeddings(&s) {
             if sf.is_zero() {
                 continue;
@@ -207,13 +229,34 @@ fn c04_group<G: GroupApi>(run: &Run) {
             let (a, b) = (&sp[(i / nm) as usize], &sm[(i % nm) as usize]);
             let mut k = c04_pair::<G>(a, b)?;
             k += c04_pair::<G>(b, a)?;
-            if i % nm == 0 {
-                k += c04_unary::<G>(a)?;
-            }
             Ok(Tally::new(k, true, 0))
         },
-        |i| json!({"op": "c04.pair", "group": G::NAME, "A": sp[(i / nm) as usize].json(), "B": sm[(i % nm) as usize].json()}),
+        |i| json!({"op": "c04.pair2", "group": G::NAME, "A": sp[(i / nm) as usize].json(), "B": sm[(i % nm) as usize].json()}),
     );
+    run.grid(
+        Spec { name: &format!("c04.{}.scaled-special.unary", G::NAME), n: ns, classes: &[], required: &[] },
+        |i| Ok(Tally::new(c04_unary::<G>(&sp[i as usize])?, true, 0)),
+        |i| json!({"op": "c04.unary", "group": G::NAME, "A": sp[i as usize].json()}),
+    );
+    if run.tier == Tier::Thorough {
+        let sf = values_scaled_fp::<G>(run.seed, Tier::Quick);
+        let nf = sf.len() as u64;
+        run.grid(
+            Spec { name: &format!("c04.{}.scaled-fp", G::NAME), n: nf * nm, classes: &[], required: &[] },
+            |i| {
+                let (a, b) = (&sf[(i / nm) as usize], &sm[(i % nm) as usize]);
+                let mut k = c04_pair::<G>(a, b)?;
+                k += c04_pair::<G>(b, a)?;
+                Ok(Tally::new(k, true, 0))
+            },
+            |i| json!({"op": "c04.pair2", "group": G::NAME, "A": sf[(i / nm) as usize].json(), "B": sm[(i % nm) as usize].json()}),
+        );
+        run.grid(
+            Spec { name: &format!("c04.{}.scaled-fp.unary", G::NAME), n: nf, classes: &[], required: &[] },
+            |i| Ok(Tally::new(c04_unary::<G>(&sf[i as usize])?, true, 0)),
+            |i| json!({"op": "c04.unary", "group": G::NAME, "A": sf[i as usize].json()}),
+        );
+    }
     let tv: Vec<Val<G>> = if run.tier == Tier::Quick { sm.clone() } else { values_small::<G>(run.seed).into_iter().chain(vs.iter().filter(|v| matches!(v.rep, Rep::LibSub | Rep::ScaledX1)).take(8).cloned()).collect() };
     let tn = tv.len() as u64;
     run.grid(
@@ -349,6 +392,15 @@ fn c05_group<G: GroupApi>(run: &Run) {
             json!({"op": "c05.laws", "group": G::NAME, "P": sm[ix[0]].json(), "a": jn(&kl[ix[1]]), "b": jn(&kl[ix[2]])})
         },
     );
+    if run.tier == Tier::Thorough {
+        let sf = values_scaled_fp::<G>(run.seed, Tier::Quick);
+        let (nf, nq) = (sf.len() as u64, kq.len() as u64);
+        run.grid(
+            Spec { name: &format!("c05.{}.scaled-fp", G::NAME), n: nf * nq, classes: &[], required: &[] },
+            |i| Ok(Tally::new(c05_mul::<G>(&sf[(i / nq) as usize], &kq[(i % nq) as usize])?, true, 0)),
+            |i| json!({"op": "c05.mul", "group": G::NAME, "P": sf[(i / nq) as usize].json(), "k": jn(&kq[(i % nq) as usize])}),
+        );
+    }
     // small-scope complete: EVERY scalar 0..=255 (4095) and r-256..r-1 on every representative of d in {1, r-1}
     let reps: Vec<Val<G>> = vs.iter().filter(|v| v.d.is_one() || v.d == r() - n(1) || v.d.is_zero()).cloned().collect();
     let span: u64 = run.tier.pick(256, 4096);
@@ -416,9 +468,12 @@ pub fn c10_case<G: GroupApi>(a: &Val<G>, f: Fmt) -> Result<u32, Bad> {
 fn c10_group<G: GroupApi>(run: &Run) {
     let mut vs: Vec<Val<G>> = values::<G>(run.tier, run.seed).into_iter().filter(|v| !v.d.is_zero()).collect();
     vs.extend(values_scaled_special::<G>(run.seed));
+    if run.tier == Tier::Thorough {
+        vs.extend(values_scaled_fp::<G>(run.seed, Tier::Quick));
+    }
     // every small discrete log as well: cheap, and it decorrelates the alphabet from any rule that happens to
     // agree with the SM9 parity rule on a handful of points (e.g. 'larger root' instead of 'odd root')
-    for d in 4..=run.tier.pick(48u64, 256) {
+    for d in 4..=run.tier.pick(48u64, 2048) {
         for rp in [Rep::Aff, Rep::LibMul] {
             if let Some(v) = build::<G>(&n(d), &rp) {
                 vs.push(v);
@@ -538,6 +593,26 @@ fn c15_group<G: GroupApi>(run: &Run) {
         },
         |i| json!({"op": "c15.pair", "group": G::NAME, "A": vs[(i / nn) as usize].json(), "B": vs[(i % nn) as usize].json()}),
     );
+    if run.tier == Tier::Thorough {
+        let sf = values_scaled_fp::<G>(run.seed, Tier::Thorough);
+        let sm = values_small::<G>(run.seed);
+        let (nf, nm) = (sf.len() as u64, sm.len() as u64);
+        run.grid(
+            Spec { name: &format!("c15.{}.scaled-fp", G::NAME), n: nf * nm, classes: &[], required: &[] },
+            |i| {
+                let (a, b) = (&sf[(i / nm) as usize], &sm[(i % nm) as usize]);
+                let mut k = c15_pair::<G>(a, b)?;
+                k += c15_pair::<G>(b, a)?;
+                Ok(Tally::new(k, true, 0))
+            },
+            |i| json!({"op": "c15.pair2", "group": G::NAME, "A": sf[(i / nm) as usize].json(), "B": sm[(i % nm) as usize].json()}),
+        );
+        run.grid(
+            Spec { name: &format!("c15.{}.scaled-fp.unary", G::NAME), n: nf, classes: &[], required: &[] },
+            |i| Ok(Tally::new(c15_unary::<G>(&sf[i as usize])?, true, 0)),
+            |i| json!({"op": "c15.unary", "group": G::NAME, "A": sf[i as usize].json()}),
+        );
+    }
     run.grid(
         Spec { name: &format!("c15.{}.unary", G::NAME), n: nn, classes: &[], required: &[] },
         |i| Ok(Tally::new(c15_unary::<G>(&vs[i as usize])?, true, 0)),
@@ -567,6 +642,7 @@ fn replay_g<G: GroupApi>(c: &Value) -> Result<(), Bad> {
     let val = |k: &str| Val::<G>::from_json(&c[k]);
     match gs(c, "op").as_str() {
         "c04.pair" => c04_pair::<G>(&val("A"), &val("B")).map(|_| ()),
+        "c04.pair2" => c04_pair::<G>(&val("A"), &val("B")).and_then(|_| c04_pair::<G>(&val("B"), &val("A"))).map(|_| ()),
         "c04.unary" => c04_unary::<G>(&val("A")).map(|_| ()),
         "c04.triple" => c04_triple::<G>(&val("A"), &val("B"), &val("C")).map(|_| ()),
         "c05.mul" => c05_mul::<G>(&val("P"), &(gn(c, "k") % r())).map(|_| ()),
@@ -582,6 +658,7 @@ fn replay_g<G: GroupApi>(c: &Value) -> Result<(), Bad> {
             c10_case::<G>(&val("P"), f).map(|_| ())
         }
         "c15.pair" => c15_pair::<G>(&val("A"), &val("B")).map(|_| ()),
+        "c15.pair2" => c15_pair::<G>(&val("A"), &val("B")).and_then(|_| c15_pair::<G>(&val("B"), &val("A"))).map(|_| ()),
         "c15.unary" => c15_unary::<G>(&val("A")).map(|_| ()),
         o => panic!("unknown op {}", o),
     }
